@@ -41,11 +41,12 @@ struct CbSink {
     calls: u64,
     fail_at: Option<u64>,
     flushes: u64,
+    flush_fails: bool,
 }
 
 impl CbSink {
     fn new(s: &Sched, fail_at: Option<u64>) -> Box<CbSink> {
-        Box::new(CbSink { data: Vec::new(), sched: SchedState::new(s), calls: 0, fail_at, flushes: 0 })
+        Box::new(CbSink { data: Vec::new(), sched: SchedState::new(s), calls: 0, fail_at, flushes: 0, flush_fails: false })
     }
 }
 
@@ -77,6 +78,10 @@ extern "C" fn write_cb(buffer: *const u8, len: u32, ctx: *mut c_void, written: *
 extern "C" fn flush_cb(ctx: *mut c_void) -> i32 {
     let s = unsafe { &mut *(ctx.cast::<CbSink>()) };
     s.flushes += 1;
+    if s.flush_fails {
+        seams::fired("c_flush_callback_failure");
+        return 5;
+    }
     0
 }
 
@@ -177,8 +182,13 @@ struct CWrite {
 
 /// Express a writer history through the C entry points
 fn c_write(case: &Case, sink_sched: &Sched, fail_at: Option<u64>) -> CWrite {
+    c_write_opts(case, sink_sched, fail_at, false)
+}
+
+fn c_write_opts(case: &Case, sink_sched: &Sched, fail_at: Option<u64>, flush_fails: bool) -> CWrite {
     let mut out = CWrite { statuses: Vec::new(), image: Vec::new(), new_status: OK, close_status: None };
     let mut sink = CbSink::new(sink_sched, fail_at);
+    sink.flush_fails = flush_fails;
     let ctx: *mut c_void = (&mut *sink as *mut CbSink).cast();
     let mut cfg: c::MLAConfigHandle = null_mut();
     assert_eq!(st(c::mla_config_default_new(&mut cfg)), OK);
@@ -420,7 +430,7 @@ impl Prop for C20 {
         "exploration"
     }
     fn rule(&self) -> String {
-        "run kinds. create: a seeded valid writer history (as C01, names without NUL) expressed through mla_config_* / mla_archive_* with a simulated write callback that accepts 1 byte, 1..n bytes or everything per call; the bytes collected by the callback must be an archive the Rust reader (prod build) reads back to the abstract model. extract: the archive goes through mla_roarchive_extract with simulated read/seek callbacks (1 byte, 1..n per read) and a file callback handing out one simulated writer per file (splitting schedules), declining a seeded subset: every accepted writer holds exactly the model's bytes, declined names receive nothing. failures: write callback failing from its k-th call (some call of the history or the final close must return a non-success status), read callback failing at its k-th call, the first per-file writer failing at its k-th call, missing private key: the status must not be success. null: each of 24 calls with a NULL handle, NULL out-pointer, NULL callback or a handle the interface itself cleared on release (config after mla_archive_new / mla_roarchive_extract, file after close, archive after close, double close) must return a non-success status; the worker process must survive. distinct_nontrivial = distinct (kind, recipients, schedule kinds, failure placement, outcome) signatures.".into()
+        "run kinds. create: a seeded valid writer history (as C01, names without NUL) expressed through mla_config_* / mla_archive_* with a simulated write callback that accepts 1 byte, 1..n bytes or everything per call; the bytes collected by the callback must be an archive the Rust reader (prod build) reads back to the abstract model. extract: the archive goes through mla_roarchive_extract with simulated read/seek callbacks (1 byte, 1..n per read) and a file callback handing out one simulated writer per file (splitting schedules), declining a seeded subset: every accepted writer holds exactly the model's bytes, declined names receive nothing. failures: write callback failing from its k-th call (some call of the history or the final close must return a non-success status), read callback failing at its k-th call, the first per-file writer failing at its k-th call, flush callback failing, missing private key: the status must not be success. null: each of 24 calls with a NULL handle, NULL out-pointer, NULL callback or a handle the interface itself cleared on release (config after mla_archive_new / mla_roarchive_extract, file after close, archive after close, double close) must return a non-success status; the worker process must survive. distinct_nontrivial = distinct (kind, recipients, schedule kinds, failure placement, outcome) signatures.".into()
     }
     fn assumptions(&self) -> Vec<String> {
         vec![
@@ -476,7 +486,7 @@ impl Prop for C20 {
         case.params.insert("file_max".into(), *rng.pick(&[0i64, 1, 5, 1000]));
         case.params.insert("sched_seed".into(), (rng.u64() >> 1) as i64);
         case.params.insert("decline_mask".into(), if rng.chance(1, 2) { rng.below(32) as i64 } else { 0 });
-        case.params.insert("fail_kind".into(), rng.below(4) as i64);
+        case.params.insert("fail_kind".into(), rng.below(5) as i64);
         case.params.insert("fail_at".into(), rng.range(0, 30) as i64);
         case
     }
@@ -623,6 +633,27 @@ impl Prop for C20 {
                             v.push(Violation::new("c-failure-reported-as-success", "file-writer", "the first per-file writer failed, its file is incomplete, but extraction returned success".to_string()));
                         }
                         ctx.sig(format!("fail-file|at{}|ok{}", at.min(3), ex.status == OK));
+                    }
+                }
+            }
+            4 => {
+                // the flush callback fails: every mla_archive_flush of the history must report it
+                let r = guard(|| c_write_opts(case, &case.sink, None, true));
+                ctx.eval();
+                match r {
+                    Err(p) => v.push(Violation::new("c-api-panic", "flush-callback-failure", format!("panic with a failing flush callback: {p}"))),
+                    Ok(wf) => {
+                        let mut n = 0;
+                        for (op, st) in case.ops.iter().zip(wf.statuses.iter()) {
+                            if matches!(op, WOp::Flush) {
+                                n += 1;
+                                if *st == OK {
+                                    v.push(Violation::new("c-failure-reported-as-success", "flush-callback", "the flush callback failed but mla_archive_flush returned success".to_string()));
+                                    break;
+                                }
+                            }
+                        }
+                        ctx.sig(format!("fail-flush|{}", n.min(3)));
                     }
                 }
             }
